@@ -148,6 +148,7 @@ package gochannel
 //@   ensures spawned("(*GoChannel).sendMessage$1$1") == old(spawned("(*GoChannel).sendMessage$1$1")) + len(subscribers) [one-sender-per-subscriber-of-the-snapshot]
 //@   ensures forall i int :: 0 <= i && i < len(subscribers) ==> spawnfv("(*GoChannel).sendMessage$1$1", "subscriber", old(spawned("(*GoChannel).sendMessage$1$1")) + i) == subscribers[i] && spawnfv("(*GoChannel).sendMessage$1$1", "message", old(spawned("(*GoChannel).sendMessage$1$1")) + i) == message [the-i-th-sender-serves-the-i-th-subscriber-with-this-message]
 //@   ensures closed(ackedBySubscribers) [signals-completion-after-all-senders-finished]
+//@   assert @close:ackedBySubscribers: wg(wg) == 0 && spawned("(*GoChannel).sendMessage$1$1") == old(spawned("(*GoChannel).sendMessage$1$1")) + len(subscribers) [completion-is-signalled-only-when-every-sender-started-here-has-reported-back]
 //@   inv loop 1: forall i int :: 0 <= i && i <= rangeindex ==> spawnfv("(*GoChannel).sendMessage$1$1", "subscriber", old(spawned("(*GoChannel).sendMessage$1$1")) + i) == subscribers[i] && spawnfv("(*GoChannel).sendMessage$1$1", "message", old(spawned("(*GoChannel).sendMessage$1$1")) + i) == message [senders-so-far]
 //@   inv loop 1: spawned("(*GoChannel).sendMessage$1$1") == old(spawned("(*GoChannel).sendMessage$1$1")) + rangeindex + 1 && wg != nil && !closed(ackedBySubscribers) && wgtoken(wg) == 0 [one-sender-per-visited-subscriber]
 //@   modifies closed(ackedBySubscribers)
